@@ -529,6 +529,10 @@ def main():
                 known_hits.append((f, it))
             else:
                 new_viol.append(it)
+        # a known failing obligation cuts the paths behind it: covers of that harness placed after it may be
+        # unsatisfiable for that reason alone
+        known_harnesses = {it["harness"] for _, it in known_hits}
+        undecided = [u for u in undecided if not (u[0] in known_harnesses and u[1].startswith("cover not satisfied"))]
         printed = set()
         for f, it in known_hits:
             if f["id"] not in printed:
